@@ -155,7 +155,7 @@ pub fn hist_case(line: &str, wrapped_ref: bool) -> String {
   out.join(" ")
 }
 
-const FINAL_OPS: [&str; 7] = ["src", "buf", "m1", "m0", "s10", "s00", "hash"];
+const FINAL_OPS: [&str; 8] = ["hash", "src", "buf", "m1", "m0", "s10", "s00", "hash"];
 
 pub fn pair_case(t: &mut Toks) -> String {
   let _relaxed = t.next();
@@ -165,6 +165,7 @@ pub fn pair_case(t: &mut Toks) -> String {
   let mut ctx_b = Ctx::default();
   let mut b = build(t, &mut ctx_b).boxed();
   let opsb = parse_hops(t);
+  let eq0 = PartialEq::eq(&a, &b);
   for op in opsa {
     guarded_hop(&mut a, op);
   }
@@ -173,7 +174,7 @@ pub fn pair_case(t: &mut Toks) -> String {
   }
   let eq = PartialEq::eq(&a, &b);
   let eqr = PartialEq::eq(&b, &a);
-  let mut out = vec![format!("eq={}", eq as u8), format!("eqr={}", eqr as u8)];
+  let mut out = vec![format!("eq0={}", eq0 as u8), format!("eq={}", eq as u8), format!("eqr={}", eqr as u8)];
   for (i, op) in FINAL_OPS.iter().enumerate() {
     out.push(format!("A{}={}", i, guarded_hop(&mut a, op)));
   }
